@@ -328,6 +328,28 @@ def c13_one3d_default_shape(v, spec):
                             p.startswith('dimension ROW:') for p in pr)
 
 
+@pred('C14-cloudrain-cut-reads-as-3-variable')
+def c14_cloudrain_ambiguous(v, spec):
+    # The cloud/rain format carries no variable count: the reader tells the
+    # contemporary 5-variable layout from the old 3-variable one by the file
+    # size alone.  A 5-variable file cut where the remaining data are a whole
+    # number of 3-variable steps (and not of 5-variable steps) is opened as
+    # a 3-variable file with other step boundaries.
+    if not v['kind'].startswith('silent-misread:cloud_rain'):
+        return False
+    sp = spec or {}
+    if sp.get('fmt') != 'cloud_rain' or sp.get('nvars', 5) != 5:
+        return False
+    try:
+        per = sp['nz'] * (sp['nx'] * sp['ny'] + 2) * 4
+        ts5, ts3 = 5 * per + 16, 3 * per + 16
+        hdr = int(v['size']) - sp['nt'] * ts5
+        left = int(v['cut']) - hdr
+    except Exception:
+        return False
+    return left > 0 and left % ts3 == 0 and left % ts5 != 0
+
+
 @pred('C14-bpch2-partial-last-step')
 def c14_bpch2_partial(v, spec):
     # The block-walking reader (bpch2) indexes whatever complete data blocks
